@@ -17,6 +17,7 @@ import (
 
 	"github.com/openziti/storage/ast"
 	"github.com/openziti/storage/boltz"
+	"github.com/openziti/storage/zitiql"
 	"github.com/sirupsen/logrus"
 	"go.etcd.io/bbolt"
 	"verif/harness/internal/project"
@@ -352,6 +353,20 @@ func isolationMain(args []string) error {
 					}
 					return nil
 				})
+				if h == 3 && i%40 == 0 {
+					// a parse with diagnostics switched on is a parse like any other: whatever it turns on is its own
+					func() {
+						defer func() {
+							if p := recover(); p != nil {
+								mu.Lock()
+								failures = append(failures, fmt.Sprintf("panic in a concurrent debug parse: %v", p))
+								mu.Unlock()
+							}
+						}()
+						// (with diagnostics on, reports of ambiguity come back as parse errors: what it returns is not judged here)
+						_ = zitiql.ParseWithDebug(fmt.Sprintf(`name = "n%d" and (age > 3 or not (flag = true)) sort by name skip 1 limit %d`, i%7, i%5+1), &zitiql.BaseZitiQlListener{}, true)
+					}()
+				}
 				_ = env.S.People.GetSymbol([]string{"name", "roles", "boss.name", "reports.name", "tags.x"}[i%5])
 				_ = env.S.Staff.GetSymbol("grade")
 				atomic.AddInt64(&helperCalls, 1)
